@@ -46,6 +46,20 @@ def nnf(e, neg=False):
     truth value is the same)"""
     if isinstance(e, ast.UnaryOp) and isinstance(e.op, ast.Not):
         return nnf(e.operand, not neg)
+    if isinstance(e, ast.IfExp):
+        # in a boolean context: (True if c else B) is (c or B), etc.
+        c, A, B = e.test, e.body, e.orelse
+        rew = None
+        if _is_const(A, True):
+            rew = ast.BoolOp(op=ast.Or(), values=[c, B])
+        elif _is_const(A, False):
+            rew = ast.BoolOp(op=ast.And(), values=[ast.UnaryOp(op=ast.Not(), operand=c), B])
+        elif _is_const(B, True):
+            rew = ast.BoolOp(op=ast.Or(), values=[ast.UnaryOp(op=ast.Not(), operand=c), A])
+        elif _is_const(B, False):
+            rew = ast.BoolOp(op=ast.And(), values=[c, A])
+        if rew is not None:
+            return nnf(rew, neg)
     if isinstance(e, ast.BoolOp):
         if not neg:
             return ast.BoolOp(op=e.op, values=[nnf(v, False) for v in e.values])
@@ -475,11 +489,42 @@ def _any_all(block, later_reads=None):
     return changed
 
 
+def _expr_of(stmts):
+    """the value of a block that consists only of if/else and returns, as one
+    (conditional) expression; None if it is anything else"""
+    if not stmts:
+        return None
+    st = stmts[0]
+    if isinstance(st, ast.Return):
+        return st.value if st.value is not None else ast.Constant(value=None)
+    if isinstance(st, ast.If):
+        a = _expr_of(st.body)
+        if a is None:
+            return None
+        b = _expr_of(list(st.orelse) + list(stmts[1:]))
+        if b is None:
+            return None
+        return ast.IfExp(test=st.test, body=a, orelse=b)
+    return None
+
+
 def prenormalize_helper(helper):
-    """a clone of the helper with search loops folded (so that a helper that
-    is `return any(...)` in disguise can be inlined as an expression)"""
+    """a clone of the helper with search loops folded and a pure if/return
+    cascade turned into one conditional expression (so that a predicate
+    helper can be inlined as an expression, also inside a comprehension)"""
     new = clone(helper)
-    if _any_all(new.body):
+    changed = _any_all(new.body)
+    body = new.body
+    doc = []
+    if body and isinstance(body[0], ast.Expr) and isinstance(body[0].value, ast.Constant) \
+            and isinstance(body[0].value.value, str):
+        doc, body = body[:1], body[1:]
+    if len(body) > 1 or (body and isinstance(body[0], ast.If)):
+        v = _expr_of(body)
+        if v is not None:
+            new.body = doc + [ast.copy_location(ast.Return(value=v), body[0])]
+            changed = True
+    if changed:
         ast.fix_missing_locations(new)
         return new
     return helper
